@@ -817,6 +817,13 @@ func genC05(o *Out, rng *rand.Rand, tier string) {
 			}
 		}
 	}
+	// (b2'') octets that are sets of flags, every combination
+	for u := 0; u < 256; u++ {
+		emit([]byte{5, 1, 2, 3, 0, 39, 0, 5, byte(u), 1, 'h', 1, 'x'}, "flag-octets")
+		emit([]byte{5, 1, 2, 3, 0, 99, 0, 4, byte(u), byte(255 - u), 5, 220}, "flag-octets")
+		mr := append([]byte{24, 64, 8, byte(u), 10, 0, 0, 0}, make([]byte, 16)...)
+		emit(append([]byte{5, 1, 2, 3, 0, 97, 0, 28, 0, 98, 0, 24}, mr...), "flag-octets")
+	}
 	// (b3) number spaces of their own: the sub-options of vendor options (17) and of the NTP option (56) are not
 	// DHCPv6 options, whatever their numbers; every known option code as a sub-option code, with a payload that is a
 	// valid encoding of that option and with one that is not
@@ -986,6 +993,14 @@ func genC06v6(o *Out, rng *rand.Rand, tier string) {
 			fix6(o, []byte{5, 1, 2, 3, 0, 6, 0, 4, hi, lo, lo, hi}, "numeric-sweep")        // requested options
 			fix6(o, []byte{5, 1, 2, 3, 0, 99, 0, 4, hi, lo, lo, hi}, "numeric-sweep")       // 4RD non-map rule: flags, traffic class, PMTU
 			fix6(o, []byte{5, 1, 2, 3, 0, 62, 0, 3, hi, lo, hi ^ lo}, "numeric-sweep")      // network interface id
+		}
+		for u := 0; u < 256; u++ { // octets that are sets of flags: every combination, reserved bits included
+			fix6(o, []byte{5, 1, 2, 3, 0, 39, 0, 5, byte(u), 1, 'h', 1, 'x'}, "numeric-sweep")          // client FQDN flags
+			fix6(o, []byte{5, 1, 2, 3, 0, 39, 0, 1, byte(u)}, "numeric-sweep")                          // ... without a name
+			fix6(o, []byte{5, 1, 2, 3, 0, 99, 0, 4, byte(u), byte(255 - u), 5, 220}, "numeric-sweep")   // 4RD non-map rule flags
+			mr := append([]byte{24, 64, 8, byte(u), 10, 0, 0, 0}, make([]byte, 16)...)
+			fix6(o, append([]byte{5, 1, 2, 3, 0, 97, 0, 28, 0, 98, 0, 24}, mr...), "numeric-sweep")      // 4RD map rule flags
+			fix6(o, append([]byte{12, byte(u)}, append(make([]byte, 32), 0, 9, 0, 4, 1, 0, 0, byte(u))...), "numeric-sweep") // relay hop count
 		}
 		for k := 0; k < 32*4; k++ {
 			v := uint32(1)<<uint(k/4) + uint32(k%4) - 2
